@@ -265,6 +265,7 @@ type ChainDef struct {
 	States []string
 	Final  string
 	Props  []string
+	Skip   []string // labels of preconditions that are assumed on edges, not checked (listed as assumptions)
 	File   string
 	Line   int
 }
@@ -329,7 +330,7 @@ func (ps *parser) expectOp(s string) error {
 
 var clauseKW = map[string]bool{"requires": true, "ensures": true, "modifies": true, "invariant": true, "decreases": true,
 	"let": true, "ghost": true, "on": true, "checks": true, "nopanic": true, "pure": true, "trusted": true, "inline": true, "props": true, "attr": true,
-	"func": true, "macro": true, "ufunc": true, "axiom": true, "sort": true, "lemma": true, "assume": true, "show": true, "hfunc": true, "fntype": true, "chain": true, "states": true, "final": true}
+	"func": true, "macro": true, "ufunc": true, "axiom": true, "sort": true, "lemma": true, "assume": true, "show": true, "hfunc": true, "fntype": true, "chain": true, "states": true, "final": true, "assumes": true}
 
 // atClauseStart: a clause keyword at beginning of a line ends the previous expression.
 func (ps *parser) atClauseStart() bool {
@@ -571,6 +572,10 @@ func (ps *parser) parseFile() (*SpecFile, error) {
 					}
 				case "final":
 					c.Final = ps.next().text
+				case "assumes":
+					for !ps.atClauseStart() && !ps.isID("props") && !ps.isID("final") {
+						c.Skip = append(c.Skip, ps.next().text)
+					}
 				case "props":
 					for !ps.atClauseStart() {
 						c.Props = append(c.Props, ps.next().text)
